@@ -37,7 +37,9 @@ extern "C" void sym_body()
     const auto m = samples.size();
 
     tensor4d_t G(cat_dims(n, ds.target_dims()));
-    for (tensor_size_t i = 0; i < n; ++i) G(i, 0, 0, 0) = sym_box(sym_nm("g", i), -8.0, 8.0);
+    // gsym: number of symbolic gradients (the remaining ones are concrete): keeps the polynomial obligations within nlsat's reach
+    const tensor_size_t gsym = cfgi("gsym", n);
+    for (tensor_size_t i = 0; i < n; ++i) G(i, 0, 0, 0) = i < gsym ? sym_box(sym_nm("g", i), -8.0, 8.0) : (0.75 * static_cast<double>((i * 5 + 2) % 7) - 2.0);
 
     auto wl = wlearner_t::all().get(wid);
     SYM_CHECK(static_cast<bool>(wl), "weak learner id registered");
